@@ -41,7 +41,10 @@ RULE_FAULTS = (
        "empty-$and", "empty-$or", "empty-$and_any_order", "empty-$not", "not-2-args", "not-3-args", "deref-no-main-reg",
        "times-neg-int-inside", "times-neg-int-sibling", "times-neg-min-inside", "times-neg-min-sibling", "times-inverted-inside", "times-inverted-sibling",
        "times-neg-int-group", "times-neg-min-group", "times-inverted-group",
-       "undefined-macro-no-defs", "undefined-macro-file-defs", "undefined-macro-extra-file"]
+       "times-neg-min-only-inside", "times-neg-min-only-sibling", "times-neg-max-inside", "times-neg-max-sibling", "times-neg-max-group",
+       "undefined-macro-no-defs", "undefined-macro-file-defs", "undefined-macro-extra-file",
+       "undefined-macro-in-mnemonic-file-defs", "undefined-macro-in-mnemonic-extra-file", "undefined-macro-in-operand-file-defs", "undefined-macro-in-operand-extra-file",
+       "undefined-macro-key-times-file-defs", "undefined-macro-key-operands-extra-file"]
 )
 INPUT_FAULTS = ["input-file-" + f for f in FILE_FAULTS]
 BINARY_FAULTS = ["objdump-absent", "objdump-exit1", "objdump-exit3", "objdump-signal", "objdump-half-then-fail", "objdump-banner-then-fail", "sections-all-absent"]
@@ -153,16 +156,25 @@ def inject_rule_fault(fault, doc, pos, garbage):
     elif fault.startswith("times-"):
         _, what, where = fault.split("-", 2) if fault.count("-") == 2 else (None, None, None)
         kind, where = fault[len("times-"):].rsplit("-", 1)
-        t = {"neg-int": -1, "neg-min": {"min": -1, "max": 1}, "inverted": {"min": 3, "max": 1}}[kind]
+        t = {"neg-int": -1, "neg-min": {"min": -1, "max": 1}, "inverted": {"min": 3, "max": 1}, "neg-min-only": {"min": -2}, "neg-max": {"min": 0, "max": -1}}[kind]
         if where == "group":
             pat[k] = {"$and": [pat[k]], "times": t}
         else:
             pat[k] = _set_times(pat[k], t, where)
     elif fault.startswith("undefined-macro"):
-        pat.insert(k, "@zz_undefined")
-        if fault == "undefined-macro-file-defs":
+        if "-in-mnemonic-" in fault:
+            pat.insert(k, "x@zz_undefined")  # substitution inside a longer name is a supported macro use
+        elif "-in-operand-" in fault:
+            pat.insert(k, {"mov": ["%@zz_undefined"]})
+        elif "-key-times-" in fault:
+            pat.insert(k, {"@zz_undefined": {"times": 2}})
+        elif "-key-operands-" in fault:
+            pat.insert(k, {"@zz_undefined": ["rax"]})
+        else:
+            pat.insert(k, "@zz_undefined")
+        if fault.endswith("file-defs"):
             doc["macros"] = [{"name": "@other_", "pattern": "other"}]
-        elif fault == "undefined-macro-extra-file":
+        elif fault.endswith("extra-file"):
             extra = [{"name": "@other_", "pattern": "other"}]
     return doc, raw, extra
 
@@ -335,3 +347,54 @@ def evaluate(case):
     ev.keys = [(fault, mode, entry, str(case["base"])[:2000])]
     ev.sample = {"fault": fault, "mode": mode, "entry": entry, "outcome": cls, "pattern": pattern}
     return ev
+
+
+# ---------------------------------------------------------------------------------- the complete (fault x mode) grid
+def _grid_bases(seed, per_mode):
+    """Bases from a seeded pass of the same generator (a pure function of VERIF_SEED): per_mode usable ones per input mode."""
+    import hypothesis
+    from hypothesis import HealthCheck, Phase, given, settings
+
+    got = {"assembly": [], "binary": []}
+
+    @hypothesis.seed(seed * 7919 + 5)
+    @settings(max_examples=60 * per_mode, database=None, deadline=None, derandomize=False, phases=[Phase.generate], suppress_health_check=list(HealthCheck))
+    @given(cases())
+    def collect(c):
+        if len(got[c["mode"]]) < per_mode * 3:
+            got[c["mode"]].append(c)
+
+    collect()
+    return got
+
+
+def _grid_worker(case):
+    return case, evaluate(case)
+
+
+def extra(tier, seed, rep):
+    """Every (fault, input mode) cell at least once through the API (thorough: three bases, and through the CLI as well)."""
+    import multiprocessing as mp
+
+    per_mode = 1 if tier == "quick" else 3
+    bases = _grid_bases(seed, per_mode)
+    todo = []
+    for mode in ("assembly", "binary"):
+        for fault in FAULTS[mode]:
+            for b in bases[mode][: per_mode * 3]:
+                for entry in (("api",) if tier == "quick" else ("api", "cli")):
+                    todo.append(dict(b, fault=fault, entry=entry))
+    hit = {}
+    with mp.get_context("fork").Pool(16) as pool:
+        for case, ev in pool.imap_unordered(_grid_worker, todo, chunksize=4):
+            cell = (case["mode"], case["fault"], case["entry"])
+            exercised = any(t.startswith("outcome=") for t in ev.tags)
+            if exercised and hit.get(cell, 0) >= per_mode:
+                continue  # enough bases for this cell (the spare bases are there for unusable ones)
+            rep.add_eval(case, ev)
+            if exercised:
+                hit[cell] = hit.get(cell, 0) + 1
+    cells = [(m, f, e) for m in ("assembly", "binary") for f in FAULTS[m] for e in (("api",) if tier == "quick" else ("api", "cli"))]
+    missing = [list(c) for c in cells if not hit.get(c)]
+    rep.extra["fault_grid"] = {"cells": len(cells), "exercised": len(cells) - len(missing), "not_exercised": missing}
+    rep.exhaustive_parts.append(f"fault grid: {len(cells)} (input mode, fault, entry point) cells, {len(cells) - len(missing)} exercised")
